@@ -221,6 +221,14 @@ RDMStatusCode RDMCommand::VerifyData(const uint8_t *data,
     return RDM_PACKET_LENGTH_MISMATCH;
   }
 
+  // The message length includes the start code and the header, so anything
+  // smaller can't be valid and would put the checksum inside the header.
+  if (message_length < sizeof(RDMCommandHeader) + 1) {
+    OLA_WARN << "RDM message length field is too small, needs to be at least "
+             << sizeof(RDMCommandHeader) + 1 << ", was " << message_length;
+    return RDM_PACKET_LENGTH_MISMATCH;
+  }
+
   uint16_t checksum = CalculateChecksum(data, message_length - 1);
   uint16_t actual_checksum = JoinUInt8(data[message_length - 1],
                                        data[message_length]);
